@@ -11,6 +11,7 @@
 #ifndef HWLOC_WIN_SYS
 
 #include <sys/mman.h>
+#include <sys/stat.h>
 #ifdef HAVE_UNISTD_H
 #include <unistd.h>
 #endif
@@ -88,6 +89,8 @@ hwloc_shmem_topology_write(hwloc_topology_t topology,
   struct hwloc_shmem_header header;
   uint32_t header_length = (sizeof(header) + sizeof(void*) - 1) & ~(sizeof(void*) - 1); /* pad to a multiple of pointer size */
   void *mmap_res;
+  struct stat st;
+  off_t offres;
   int err;
 
   if (flags) {
@@ -106,17 +109,23 @@ hwloc_shmem_topology_write(hwloc_topology_t topology,
   header.mmap_address = (uintptr_t) mmap_address;
   header.mmap_length = length;
 
-  err = lseek(fd, fileoffset, SEEK_SET);
-  if (err < 0)
+  offres = lseek(fd, fileoffset, SEEK_SET); /* not an int, the offset may be beyond 2GiB */
+  if (offres == (off_t) -1)
     return -1;
 
   err = write(fd, &header, sizeof(header));
   if (err != sizeof(header))
     return -1;
 
-  err = ftruncate(fd, fileoffset + length);
+  /* extend the file if needed, never shrink it, something else may be stored after us */
+  err = fstat(fd, &st);
   if (err < 0)
     return -1;
+  if ((hwloc_uint64_t) st.st_size < fileoffset + length) {
+    err = ftruncate(fd, fileoffset + length);
+    if (err < 0)
+      return -1;
+  }
 
   mmap_res = mmap(mmap_address, length, PROT_READ|PROT_WRITE, MAP_SHARED, fd, fileoffset);
   if (mmap_res == MAP_FAILED)
@@ -158,6 +167,7 @@ hwloc_shmem_topology_adopt(hwloc_topology_t *topologyp,
   struct hwloc_shmem_header header;
   uint32_t header_length = (sizeof(header) + sizeof(void*) - 1) & ~(sizeof(void*) - 1); /* pad to a multiple of pointer size */
   void *mmap_res;
+  off_t offres;
   int err;
 
   if (flags) {
@@ -165,8 +175,8 @@ hwloc_shmem_topology_adopt(hwloc_topology_t *topologyp,
     return -1;
   }
 
-  err = lseek(fd, fileoffset, SEEK_SET);
-  if (err < 0)
+  offres = lseek(fd, fileoffset, SEEK_SET); /* not an int, the offset may be beyond 2GiB */
+  if (offres == (off_t) -1)
     return -1;
 
   err = read(fd, &header, sizeof(header));
